@@ -16,7 +16,8 @@ Tolerances (DESIGN section 5): the command may differentiate numerically on an n
 `node_bound` is the Taylor-remainder bound of a centred / one-sided difference quotient computed from the reference's
 own F''' / F''; `spline_bound` propagates node bounds through the cubic not-a-knot spline operator (linear in the data,
 so the bound is sum |cardinal_i(v)| * bound_i + the spline's own error on exact data); `lagrange4` is an own 4-point
-Lagrange inverse interpolation used only to size the interpolation error of V(P), F(P) in pressure mode.
+Lagrange inverse interpolation used only to size the interpolation error of V(P), F(P) in pressure mode; `lagrange_box`
+repeats it with every node pressure moved to either end of its bound (worst case over the box of admissible node pressures).
 """
 import math
 import re
@@ -180,6 +181,28 @@ def lagrange4(x_nodes, y_nodes, x_new):
     idx = i0[:, None] + numpy.arange(4)[None, :]
     vals = (W * ys[idx]).sum(axis=1)
     return vals, W, idx, o
+
+
+def lagrange_weights(xn, x):
+    """weights (m,4) of the cubic through the abscissae xn (m,4) evaluated at x (m,)"""
+    xn = numpy.asarray(xn, float)
+    x = numpy.asarray(x, float)
+    W = numpy.ones(xn.shape)
+    for a in range(4):
+        for b in range(4):
+            if a != b:
+                W[:, a] = W[:, a] * (x - xn[:, b]) / (xn[:, a] - xn[:, b])
+    return W
+
+
+def lagrange_box(p_nodes4, p_bound4, y_nodes4, p_new):
+    """all 16 inverse interpolations with the four node abscissae moved to either end of [p - bound, p + bound]:
+    yields (weights (m,4), interpolated y (m,)) per corner.  The interpolated value is monotonic in each node abscissa as
+    long as the nodes keep their order, so the extremes over the box are attained at corners."""
+    import itertools
+    for signs in itertools.product((-1.0, 1.0), repeat=4):
+        W = lagrange_weights(p_nodes4 + numpy.array(signs)[None, :] * p_bound4, p_new)
+        yield W, (W * y_nodes4).sum(axis=1)
 
 
 # ----------------------------------------------------------------------------- symmetry fill (standard setting)
